@@ -64,6 +64,8 @@ pub open spec fn fb_block(f: &FunctionBody) -> Block { n_fb_block(f) }
 @@FBSPECS@@
 pub uninterp spec fn fb_paren_trail_comments(f: &FunctionBody) -> bool;   // a comment behind the `)` of the parameters
 pub uninterp spec fn fb_end_lead_comments(f: &FunctionBody) -> bool;      // a comment in front of `end`
+#[cfg(feature = "luau")] pub uninterp spec fn fb_return_type_trail_comments(f: &FunctionBody) -> bool;   // a comment behind the Luau return type (there is none without Luau)
+#[cfg(not(feature = "luau"))] pub open spec fn fb_return_type_trail_comments(f: &FunctionBody) -> bool { false }
 """
 
 FB_SPECS = node_specs("FunctionBody", "n_fb", [("parameters_parentheses", "ContainedSpan", "-"), ("parameters", "Punctuated<full_moon::ast::Parameter>", "ref"), ("block", "Block", "ref"), ("end_token", "TokenReference", "-")]) + """
@@ -79,6 +81,7 @@ WRAP = r"""
     ensures r is Some == (block_stmts(b).len() > 0), r is Some ==> *r->Some_0 == block_stmts(b)[0].0 { unimplemented!() /* b.stmts().next() */ }
 #[verifier::external_body] pub fn paren_close_trailing_comments(f: &FunctionBody) -> (r: bool) ensures r == fb_paren_trail_comments(f) { unimplemented!() }
 #[verifier::external_body] pub fn end_leading_comments(f: &FunctionBody) -> (r: bool) ensures r == fb_end_lead_comments(f) { unimplemented!() }
+#[cfg(feature = "luau")] #[verifier::external_body] pub fn return_type_trailing_comments(f: &FunctionBody) -> (r: bool) ensures r == fb_return_type_trail_comments(f) { unimplemented!() /* f.return_type().map_or(false, |t| t.has_trailing_comments(CommentSearch::All)) */ }
 #[verifier::external_body] pub fn format_else_ifs(ctx: &Context, if_node: &If, shape: Shape) -> (r: Option<Vec<ElseIf>>)
     ensures (r is Some) == (n_if_else_if(if_node) is Some), r is Some ==> r->Some_0@.len() == n_if_else_if(if_node)->Some_0@.len() { unimplemented!() /* if_node.else_if().map(|l| l.iter().map(|e| format_else_if(ctx, e, shape)).collect()) */ }
 // format_function_body: the parts that are closures / iterator chains over parameters and Luau annotations (none of them touches the block)
@@ -120,7 +123,13 @@ def items():
         Fn(FUN, "should_collapse_function_body", contract="""
     ensures r ==> block_len(&fb_block(function_body)) == 0 || one_simple_statement(&fb_block(function_body)), //# C02.collapsed_function_is_one_statement
             r ==> !has_comments(NodeKey::Other(other_key(fb_block(function_body)))) && !fb_paren_trail_comments(function_body) && !fb_end_lead_comments(function_body), //# C03.collapsed_function_has_no_comments
+            r ==> !fb_return_type_trail_comments(function_body), //# C01.collapsed_function_return_type_closed
 """, edits=[
+            Hole("""function_body
+            .return_type()
+            .map_or(false, |return_type| {
+                return_type.has_trailing_comments(CommentSearch::All)
+            })""", "verif_collapse::return_type_trailing_comments(function_body)", kind="wrapper", why="Option::map_or with a closure: is there a comment behind the Luau return type (D44 repair)", optional=True),
             Hole("""function_body
         .parameters_parentheses()
         .tokens()
@@ -294,6 +303,7 @@ pub fn format_parameters_either(ctx: &Context, function_body: &FunctionBody, sha
     return its
 
 LABELS = {
+    "C01.collapsed_function_return_type_closed": dict(props=["C01", "C03"], text="should_collapse_function_body: a function whose Luau return type is followed by a comment is not collapsed (`end` would be printed behind the comment: D44)"),
     "C02.parameter_same": dict(props=["C02"], text="format_parameter: a name stays the same name, `...` stays `...`; the `unknown node` arm is unreachable"),
     "C02.function_parameters_same": dict(props=["C02"], text="format_singleline_parameters / format_function_body: as many parameters as the input, parameter i the input's parameter i, whichever layout the list gets"),
     "C02.function_parameters_loop": dict(props=["C02"], text="format_singleline_parameters loop invariant: the parameters pushed so far are the input's, in order"),
